@@ -235,12 +235,16 @@ def declaration_records(repo):
                             e[0] in ('symset_update', 'symset_add') and 'nonlocal' in e[1]:
                         declared.update(str(x) for x in e[2])
                 rec = recs.setdefault(cls, {'cls': cls, 'n': 0, 'undeclared': [], 'line': method_line(repo, cls),
-                                            'any_effect': False})
+                                            'any_effect': False, 'foreign': []})
                 rec['n'] += 1
                 if ps.effects:
                     rec['any_effect'] = True
                 if not set(names) <= declared:
                     rec['undeclared'].append(s.variant)
+                # the declaration concerns the block it is written in: no other scope's tables may change
+                for e in ps.effects:
+                    if e[0] in ('symset_update', 'symset_add') and not str(e[1]).startswith('CURSCOPE.'):
+                        rec['foreign'].append((s.variant, str(e[1])))
     return recs
 
 
@@ -390,4 +394,51 @@ def shadow_records(repo):
                                 work.append((p, trail + (p,)))
                         if walk is not None and re_ != ra:
                             rec['bad'].append((s.variant, gen(pa), sorted(later), ' -> '.join(walk)))
+    return recs
+
+
+# ---------------------------------------------------------------------------
+# registration of regions / visiting order of statements
+# ---------------------------------------------------------------------------
+
+def registration_records(repo):
+    """Every region a leaf is visited in (so: every region a binding can land in) must be known to the module scope, which
+    enumerates bindings region by region (all_names): -> {cls: {'bad': [(variant, region)], 'n': regions checked, 'line'}}"""
+    recs = {}
+    for cls, summs in summaries(repo).items():
+        if cls in DOMAIN_EXCLUDED:
+            continue
+        for s in summs:
+            for ps in ok_paths(s):
+                reg = ps.top_state.get('registered')
+                if reg is None:
+                    continue
+                rec = recs.setdefault(cls, {'bad': [], 'n': 0, 'line': method_line(repo, cls)})
+                for tok in sorted({r for _p, r, _l in ps.visits} | {b['region'] for b in ps.binds}):
+                    if tok in ('CUR', '?') or tok.startswith('exit('):
+                        continue        # the region the construct was entered in / regions created by opaque children
+                    rec['n'] += 1
+                    if tok not in reg:
+                        rec['bad'].append((s.variant, tok))
+    return recs
+
+
+def statement_order_records(repo):
+    """Statement leaves must be visited in source order: what the visitor records in visiting order (attribute assignments,
+    the order of regions) is reported in that order.  -> {cls: {'bad': [(variant, earlier, later)], 'n', 'line'}}"""
+    recs = {}
+    for cls, summs in summaries(repo).items():
+        if cls in DOMAIN_EXCLUDED:
+            continue
+        for s in summs:
+            bp = base_path(s)
+            if bp is None or bp.raised is not None:
+                continue
+            t = Template(s.root, bp)
+            seq = [p for p, _r, _l in bp.visits if t.sort_of(p) == 'stmt']
+            rec = recs.setdefault(cls, {'bad': [], 'n': 0, 'line': method_line(repo, cls)})
+            for a, b in zip(seq, seq[1:]):
+                rec['n'] += 1
+                if pyref.pathkey(s.root, a) > pyref.pathkey(s.root, b):
+                    rec['bad'].append((s.variant, gen(a), gen(b)))
     return recs
